@@ -98,8 +98,26 @@ def conv_base(name, text):
     return text
 
 # ---------------- printer ----------------
+# spelling of string literals in the printed grammar: 0 plain; 1 first character, 2 last character, 3 every word
+# character written as an escape sequence (\\xNN / \\uNNNN). The literal's value is the same in all spellings.
+LIT_VARIANT = 0
+
+
+def _esc(c):
+    return '\\x%02x' % ord(c) if ord(c) < 256 else '\\u%04x' % ord(c)
+
+
 def q(s):
-    return "'" + s.replace('\\', '\\\\').replace("'", "\\'") + "'"
+    chars = []
+    for k, c in enumerate(s):
+        esc = ord(c) < 0x10000 and c not in "\\'" and (
+            (LIT_VARIANT == 1 and k == 0) or (LIT_VARIANT == 2 and k == len(s) - 1) or
+            (LIT_VARIANT == 3 and (c.isalnum() or c == '_')))
+        if esc:
+            chars.append(_esc(c))
+        else:
+            chars.append(c.replace('\\', '\\\\').replace("'", "\\'"))
+    return "'" + ''.join(chars) + "'"
 
 def pr_simple(e):
     if isinstance(e, Lit):
